@@ -60,7 +60,7 @@ def is60(msg: str) -> bool:
     # additional check knowing altitude
     if (mach is not None) and (ias is not None) and (common.df(msg) == 20):
         alt = common.altcode(msg)
-        if alt is not None:
+        if alt is not None and alt not in (-999999, -1):
             ias_ = aero.mach2cas(mach, alt * aero.ft) / aero.kts
             if abs(ias - ias_) > 20:
                 return False
